@@ -22,4 +22,4 @@ CONSTANTS
   ParentOf <- Chain
   Ops = {"res", "roll"}
 CONSTANTS
-  MaxApi = 12
+  MaxApi = 7
